@@ -105,9 +105,13 @@ Mutate(o, kind, i) ==
        [] kind = "set_kw" ->
             (i \in 1..Len(ob.ops) /\ heap[ob.ops[i]].hasargs
                /\ heap' = [heap EXCEPT ![heap[ob.ops[i]].kw].items = DictPut(@, "zz", Num(7))] /\ UNCHANGED <<objs, next>>)
-       [] kind = "array_elem" ->
-            (i = 1 /\ \E c \in CellsOf(heap, ob) : heap[c].k = "arr"
-               /\ heap' = [heap EXCEPT ![c].rows[1][1] = Num(-5)] /\ UNCHANGED <<objs, next>>)
+       [] kind = "array_elem" ->       \* an element of the array variable M
+            (i = 1 /\ \E j \in 1..Len(heap[ob.vars].items) : heap[ob.vars].items[j].key = "M" /\ heap[ob.vars].items[j].v.k = "ref"
+               /\ heap' = [heap EXCEPT ![heap[ob.vars].items[j].v.c].rows[1][1] = Num(-5)] /\ UNCHANGED <<objs, next>>)
+       [] kind = "arg_array_elem" ->   \* an element of an array that is an operation's argument
+            (i \in 1..Len(ob.ops) /\ heap[ob.ops[i]].hasargs /\ \E j \in 1..Len(heap[heap[ob.ops[i]].args].xs) :
+                 heap[heap[ob.ops[i]].args].xs[j].k = "ref" /\ heap[heap[heap[ob.ops[i]].args].xs[j].c].k = "arr"
+               /\ heap' = [heap EXCEPT ![heap[heap[ob.ops[i]].args].xs[j].c].rows[1][1] = Num(99)] /\ UNCHANGED <<objs, next>>)
        [] kind = "set_var" ->
             (i = 1 /\ heap' = [heap EXCEPT ![ob.vars].items = DictPut(@, "newvar", Num(1))] /\ UNCHANGED <<objs, next>>)
        [] kind = "set_option" ->
